@@ -334,7 +334,7 @@ def MatchSelects (a : Ast) (P : Plans) : Prop :=
          else ∃ arm fd, selectArm a (scrutOf a u d) ud.arms = some arm ∧ arm.variant = lab ∧ arm.payload = some fd ∧
            decodeArray a ty .useAlias = .ok fd ∧ elemOk a ty = true
        | .void lab => ∃ arm, selectArm a (scrutOf a u d) ud.arms = some arm ∧ arm.variant = lab ∧ arm.payload = none
-       | .noArm => True)
+       | .noArm => selectArm a (scrutOf a u d) ud.arms = none ∧ ud.tail = .errUnknown)
 
 /-- what the round-trip induction knows about the specification and its plans -/
 structure RT (a : Ast) (P : Plans) : Prop where
@@ -870,9 +870,7 @@ theorem rt_of_supported {a : Ast} {m : Module} (hs : Supported a = true) (hg : g
     (hms : MatchSelects a m.plans) : RT a m.plans := by
   have hP := plansFor_of_supported hs hg
   have hsp := supported_plans hs hg
-  have hs' := hs
-  simp only [Supported, Bool.and_eq_true] at hs'
-  obtain ⟨⟨hkeys, htypes⟩, _⟩ := hs'
+  obtain ⟨hkeys, htypes, _, _, _⟩ := Supported.facts hs
   obtain ⟨hkn, _, _⟩ := keysOk_facts hkeys
   obtain ⟨_, _, h2, _⟩ := generateModule_ok hg
   refine ⟨hP, ?_, ?_, hsp.2, hms⟩
